@@ -88,7 +88,9 @@ AREAS = {
                 'and a command history of 2-11 (thorough 2-16) commands sent over a websocket to `adlt remote` (binary built from the working tree): '
                 'open (also with sort, also of a missing file, also twice), close, pause/resume, stream / query with 0-2 positive/negative filters and windows '
                 '(empty, beyond the end), stop, stream_change_window, stream_search (all start positions, page sizes 0-4), stream_binary_search by index and by time, '
-                'each also with ids never announced / already stopped / of finished queries, without id, with a malformed or missing body, and unknown commands; '
+                'each also with ids never announced / already stopped / of finished queries, without id, with a malformed or missing body, unknown commands, '
+                'fs requests (12 kinds: not JSON, not an object, missing fields, unknown cmd, stat / readDirectory of a directory, a file, a missing path, a corrupt and a real archive) '
+                'and plugin_cmd requests; one session in six uses the collect modes one_pass_streams / none / an invalid value with one-pass streams and resume (only reply presence and liveness compared); '
                 'the client lets the server catch up before commands whose answer depends on the parsing progress',
     },
     'rsn': {
